@@ -1370,6 +1370,16 @@ def numeric_stream(ctx, cat, plan):
 
 def rate_oracle(ctx, c, shape, wt, kind, args, info, ist, iv, d):
     name, cls = c['name'], c['spec']['cls']
+    if kind == 'combo':
+        want = combo_expect(shape, wt, args, c['ex'])
+        if want[0] == 'zero' and ist != 'ok':
+            fail(ctx, 'C07:%s:zero-guard-loses-to-range-policy' % cls, '%s%r raised %s; a non-positive density / temperature / energy must give 0' % (cls, tuple(args), ist), d)
+            return
+        if want[0] == 'raise' and ist != 'ValueError':
+            fail(ctx, 'C07:%s:no-raise-outside-range:%s' % (cls, ARG_NAMES[shape][want[1][0]]), '%s%r returned %r outside the range' % (cls, tuple(args), iv), d)
+            return
+        if want[0] == 'raise':
+            return
     if ist == 'ok':
         if not (iv >= 0.0):
             fail(ctx, 'C07:%s:negative-rate' % cls, '%s%r = %r < 0' % (cls, tuple(args), iv), d)
@@ -1418,6 +1428,130 @@ def rate_oracle(ctx, c, shape, wt, kind, args, info, ist, iv, d):
                 fail(ctx, 'C07:%s:no-raise-outside-range:%s' % (cls, ARG_NAMES[shape][info['axis']]),
                          '%s%r returned %r outside the tabulated range of %s with permit_extrapolation=False' % (
                              cls, tuple(args), iv if ist == 'ok' else ist, ARG_NAMES[shape][info['axis']]), d)
+
+
+# ------------------------------------------------------------------------------------------------ argument-combination policy (K + S)
+# Every special value in every argument position combined pairwise with every special value in every other position:
+# non-positive (0, -1), below the range, above the range, exactly the first / the last knot.  Decision table of the
+# sentence (= the guard order of the model): a non-positive density / temperature / energy gives 0 *whatever the other
+# arguments are*; otherwise an argument outside a tabulated (multi-point) axis raises iff extrapolation is not permitted;
+# otherwise a finite value >= 0, the stored value when every argument sits on a knot.
+COMBO_SHAPES = {'grid2': [(3, 3)], 'grid3': [(3, 3, 3)], 'beam': [(3, 3, 3), (1, 3, 3), (3, 1, 2)], 'beamCX': [(3, 3, 3, 3, 3), (1, 3, 1, 3, 3), (3, 1, 3, 1, 1)]}
+
+
+def combo_points(rng, shape, tab):
+    axs = axes_of(shape, tab)
+    lin = LINEAR_AXES.get(shape, ())
+
+    def specials(d):
+        a = axs[d]
+        span = (a[-1] - a[0]) or 1.0
+        below = a[0] - 0.3 * span if d in lin else a[0] / 3.0
+        above = a[-1] + 0.3 * span if d in lin else a[-1] * 3.0
+        out = [('zero', 0.0), ('negative', -1.0), ('first-knot', a[0]), ('last-knot', a[-1])]
+        if len(a) > 1:
+            out += [('below', below), ('above', above)]
+        return out
+
+    def plain(d):
+        a = axs[d]
+        if len(a) == 1:
+            return a[0]
+        i = rng.randrange(len(a) - 1)
+        f = rng.uniform(0.3, 0.7)
+        return a[i] + f * (a[i + 1] - a[i]) if d in lin else a[i] ** (1 - f) * a[i + 1] ** f
+
+    pts = []
+    n = len(axs)
+    for i in range(n):
+        for j in range(i + 1, n):
+            for (li, vi), (lj, vj) in itertools.product(specials(i), specials(j)):
+                p = [plain(d) for d in range(n)]
+                p[i], p[j] = vi, vj
+                pts.append((p, {ARG_NAMES[shape][i]: li, ARG_NAMES[shape][j]: lj}))
+    return pts
+
+
+def combo_expect(shape, tab, args, ex):
+    """('zero',) | ('raise', [axes]) | ('value', idx or None)"""
+    axs = axes_of(shape, tab)
+    if any(args[i] <= 0 for i in DTE[shape]):
+        return ('zero',)
+    out = [d for d, a in enumerate(axs) if len(a) > 1 and (args[d] < a[0] or args[d] > a[-1])]
+    if out and not ex:
+        return ('raise', out)
+    idx = [a.index(x) if x in a else None for x, a in zip(args, axs)]
+    return ('value', idx if all(i is not None for i in idx) else None)
+
+
+def combo_stream(ctx, cat):
+    repo = Repo()
+    batch = []
+    for rep in range(ctx.n(1, 4)):
+        for name, spec in cat.items():
+            shape = spec['shape']
+            for dims in COMBO_SHAPES[shape]:
+                for ex in (False, True):
+                    c = numeric_case(ctx, cat, repo, name, dims, ex)
+                    if c['st'] != 'ok':
+                        continue
+                    r = c['val'][0]
+                    m = getattr(r, 'donor_metastable', None) if shape == 'beamCX' else None
+                    tab = c['tabs'][c['elem_syms']]
+                    wt = tab['metastables'][m] if shape == 'beamCX' else tab
+                    wl = None
+                    if spec['wl']:
+                        req = c['species'][spec['wl'][0]]
+                        wl = c['wls'].get(req.symbol, c['wls'].get(_elem(req).symbol))
+                    pts = combo_points(ctx.rng, shape, wt)
+                    res = [impl_eval(r, p[0]) for p in pts]
+                    desc = dict(kind='numeric', accessor=name, species=[s.name for s in c['species']], charges=c['ch'], transition=list(c['tr']),
+                                extrapolate=ex, fallback=c['fb'], wavelengths=c['wls'], dims=list(dims), table=wt, metastable=m)
+                    batch.append((rate_line(spec['cls'], shape, ex, wl, wt, [p[0] for p in pts]), pts, res, desc, spec, wt, wl, ex))
+    repo.close()
+    outs = drive(ctx, [b[0] for b in batch]) if batch else []
+    n = 0
+    for (line, pts, res, desc, spec, wt, wl, ex), out in zip(batch, outs):
+        shape, cls = spec['shape'], spec['cls']
+        mods = [parse_out(t) for t in out.split()]
+        for (args, labels), (ist, iv), (mst, mv) in zip(pts, res, mods):
+            n += 1
+            ctx.traces += 1
+            ctx.count('combo:' + '+'.join(sorted(set(labels.values()))))
+            ctx.case(key=('combo', cls, ex, tuple(sorted(labels.items())), tuple(len(a) for a in axes_of(shape, wt))))
+            d = dict(desc, args=args, point='combo', info=dict(labels=labels), implementation=[ist, iv])
+            want = combo_expect(shape, wt, args, ex)
+            # ---- K
+            on_knots = want[0] == 'value' and want[1] is not None
+            agree = ist == mst and (ist != 'ok' or (iv == 0.0) == (mv == 0.0)) and (not on_knots or ist != 'ok' or close(iv, mv, 1e-9))
+            if not agree:
+                ctx.disagreements += 1
+                ctx.count('disagreement:combo')
+                _broke(ctx, 'argument combinations ' + desc['accessor'], dict(input=d, model=[mst, mv], implementation=[ist, iv]))
+            # ---- S: the decision table
+            call = '%s(%s)' % (cls, ', '.join('%s=%r' % (a_, v) for a_, v in zip(ARG_NAMES[shape], args)))
+            lab = ', '.join('%s %s' % kv for kv in sorted(labels.items()))
+            if want[0] == 'zero':
+                if ist != 'ok':
+                    fail(ctx, 'C07:%s:zero-guard-loses-to-range-policy' % cls,
+                         '%s [%s] with permit_extrapolation=%s raised %s; a non-positive density / temperature / energy must give 0 whatever the other '
+                         'arguments are' % (call, lab, ex, ist), d)
+                elif iv != 0.0:
+                    which = ARG_NAMES[shape][[i for i in DTE[shape] if args[i] <= 0][0]]
+                    fail(ctx, 'C07:%s:nonpositive-%s-not-zero' % (cls, which), '%s [%s] returned %r, the property wants 0' % (call, lab, iv), d)
+            elif want[0] == 'raise':
+                if ist != 'ValueError':
+                    fail(ctx, 'C07:%s:no-raise-outside-range:%s' % (cls, ARG_NAMES[shape][want[1][0]]),
+                         '%s [%s] returned %s outside the tabulated range with permit_extrapolation=False' % (call, lab, iv if ist == 'ok' else ist), d)
+            else:
+                if ist != 'ok':
+                    fail(ctx, 'C07:%s:raises-%s' % (cls, 'with-extrapolation' if ex else 'inside-range'), '%s [%s] raised %s (permit_extrapolation=%s)' % (call, lab, ist, ex), d)
+                elif not (iv >= 0.0 and math.isfinite(iv)):
+                    fail(ctx, 'C07:%s:%s' % (cls, 'negative-rate' if iv < 0 else 'non-finite-rate:combo'), '%s [%s] = %r' % (call, lab, iv), d)
+                elif want[1] is not None and not close(iv, expected_at(shape, wt, want[1], wl), 1e-9):
+                    fail(ctx, 'C07:%s:grid-point-value' % cls, '%s [%s] returned %r, stored value after conversion is %r' % (
+                        call, lab, iv, expected_at(shape, wt, want[1], wl)), d)
+    return n
 
 
 # ------------------------------------------------------------------------------------------------ repeated calls on one rate object (K + S)
@@ -1681,7 +1815,8 @@ def setup(ctx):
 
 
 def describe(ctx):
-    ctx.rule = ('repeat: one live rate object per accessor/shape/extrapolation answering 40-90 calls (in-range, out-of-range, the same out-of-range again, '
+    ctx.rule = ('combo: per class every pair of argument positions x {0, -1, below, above, first knot, last knot}^2, other arguments inside, both extrapolation '
+                'settings, judged by the decision table zero-guard > range policy > value; repeat: one live rate object per accessor/shape/extrapolation answering 40-90 calls (in-range, out-of-range, the same out-of-range again, '
                 'in-range again, non-positive, grid points, random order), each against a freshly constructed object; degenerate: flat / all-ones / '
                 'reference-valued components, two-point and accepted single-point axes through the full point set; steep: per accessor and axis, tables swinging 2-4 decades between adjacent knots, four interior points per cell (and, for BeamCXPEC, '
                 'two steep factors at once with a directed search for two simultaneous undershoots), S: value >= 0 and finite, K: BeamCXPEC clamp chain on '
@@ -1735,6 +1870,7 @@ def run(ctx):
         ctx.count('sequence-cases', sequence_stream(ctx, cat))
         numeric_stream(ctx, cat, plan_numeric(ctx, cat))
         ctx.count('repeat-calls', repeat_stream(ctx, cat))
+        ctx.count('combo-calls', combo_stream(ctx, cat))
         deviants_tie(ctx)
     finally:
         finish_run(ctx)
